@@ -187,8 +187,8 @@ Ltac lor_steps :=
   repeat match goal with
          | |- context [N.lor ?acc ((N.shiftl ?b ?s) mod 2 ^ ?w)] =>
            let p := eval vm_compute in (2 ^ s) in
-           rewrite (lor_byte acc b s p w) by
-               first [ vm_compute; reflexivity | lia | (vm_compute; intro; discriminate) ]
+           rewrite (lor_byte acc b s p w);
+           [ | vm_compute; reflexivity | lia | lia | vm_compute; intro; discriminate ]
          end.
 
 Ltac dec_tac tab :=
